@@ -23,7 +23,7 @@ From Verif Require Import Base.Result Base.PyDict Model.Domain Model.Exec Model.
   Proofs.C18_Dict Proofs.C18_Alpha Proofs.C18_Denote Proofs.C18_Exec Proofs.C18_Check Proofs.C18_Parser Proofs.C18_Legacy
   Proofs.C18_Main Proofs.C18_Seq Proofs.C18_ParsedDomain
   Model.ChangeSignatureAlpha Proofs.C18_AlphaStep Proofs.C18_Repaired
-  Proofs.C18_AlphaSem Proofs.C18_AlphaCorrect Proofs.C18_AlphaWF.
+  Proofs.C18_AlphaSem Proofs.C18_AlphaCorrect Proofs.C18_AlphaWF Proofs.C18_AlphaTotal.
 Import ListNotations.
 Open Scope string_scope.
 Open Scope list_scope.
@@ -280,7 +280,7 @@ Proof. exact capture_repaired. Qed.
         Proofs.C18_AlphaSem.simf (truth under environments that agree through the substitution), the generalisation of the
         lemma behind C18_alpha (Proofs.C18_Alpha.holds_ren) to quantifiers whose variable changes name; what it uses of
         fresh_variable_name is what that function tests (not a token of the printed quantifier, neither a key nor a value
-        of the mapping in force).  "Returns": running out of fuel (Err EFuel) is excluded by the hypothesis ---- *)
+        of the mapping in force).  "Returns": see C18_alpha_returns / C18_alpha_total below ---- *)
 Theorem C18_alpha_correct (m : renaming) (a a' : maction) (A : action) :
   nodup_action a -> denote_action a = Some A ->
   (forall n, ~ In n (params A) -> rn m n = n) ->
@@ -306,6 +306,31 @@ Theorem C18_alpha_correct_checked (m : renaming) (a a' : maction) (A : action) :
       applicable eps tt objs A' args s = applicable eps tt objs A args s /\
       successor eps tt objs A' args s = successor eps tt objs A args s.
 Proof. exact (change_signature_a_correct_b m a a' A). Qed.
+
+(* ---- the code's model RETURNS: fresh_variable_name's loop ends within the fuel of its model (the candidates ?v_0, ?v_1 ...
+        are pairwise distinct, a blocked one is a non-empty substring of a token or a key or a value of the mapping, and there
+        are fewer of those than the fuel: pigeonhole), so Err EFuel can only come from conditions nested deeper than
+        alpha_fuel = 200.  Together with C18_alpha_correct: for every well-formed action of nesting depth <= 200 and every
+        mapping that moves parameters only and is injective on the names in sight, change_signature_a returns an object model
+        that denotes an action with the renamed parameter list, the same applicability and the same successors ---- *)
+Theorem C18_fresh_name_total (v : string) (toks : list string) (m : renaming) : exists c, fresh_name v toks m = Ok c.
+Proof. exact (fresh_name_total v toks m). Qed.
+
+Theorem C18_alpha_returns (m : renaming) (a : maction) :
+  depth_action a <= alpha_fuel -> exists a', change_signature_a m a = Ok a'.
+Proof. exact (change_signature_a_returns m a). Qed.
+
+Theorem C18_alpha_total (m : renaming) (a : maction) (A : action) :
+  nodup_action a -> denote_action a = Some A -> depth_action a <= alpha_fuel ->
+  (forall n, ~ In n (params A) -> rn m n = n) ->
+  inj_on (rn m) (params A ++ free_action A) ->
+  exists a' A', change_signature_a m a = Ok a' /\ denote_action a' = Some A' /\
+    a_name A' = a_name A /\
+    a_params A' = map (fun pt => (rn m (fst pt), snd pt)) (a_params A) /\
+    forall eps tt objs args s, List.length args = List.length (a_params A) ->
+      applicable eps tt objs A' args s = applicable eps tt objs A args s /\
+      successor eps tt objs A' args s = successor eps tt objs A args s.
+Proof. exact (change_signature_a_total_correct m a A). Qed.
 
 (* the step underneath, for one condition: the renamed condition holds in e' exactly when the original holds in e, for
    all environments that agree through the mapping on the free names *)
@@ -398,6 +423,9 @@ Print Assumptions C18_repaired_model.
 Print Assumptions C18_alpha_correct.
 Print Assumptions C18_alpha_correct_checked.
 Print Assumptions C18_alpha_condition.
+Print Assumptions C18_fresh_name_total.
+Print Assumptions C18_alpha_returns.
+Print Assumptions C18_alpha_total.
 Print Assumptions C18_before_D75b_partial.
 Print Assumptions C18_before_D75b_refuted.
 Print Assumptions C18_legacy_partial.
